@@ -36,6 +36,10 @@ def gen_map(r: random.Random, with_zero: bool) -> dict:
     pool = [[r.choice(FILES), r.choice(["mac", "other_macro"]), r.randrange(0, 50), r.randrange(0, 80)]
             for _ in range(r.randint(1, 3))]
 
+    def dup(marks: list) -> list:
+        # a macro with a position mark that is expanded several times is recorded once per expansion
+        return marks + [list(x) for x in marks if r.random() < 0.4]
+
     def mm() -> list:
         called = r.choice([None, None, [r.choice(FILES), r.randrange(0, 30), r.randrange(0, 20)]])
         ret = r.choice([None, r.randrange(0 if with_zero else 1, 45), r.randrange(1, 45)])
@@ -46,9 +50,9 @@ def gen_map(r: random.Random, with_zero: bool) -> dict:
         return [r.choice(FILES), r.choice(["mac", "other_macro"]), r.randrange(0, 50), r.randrange(0, 80), called, ret, params]
 
     return {"map": {k: [r.randrange(0, 50), r.randrange(0, 80)] for k in okeys},
-            "pos_marks": [mark() for _ in range(r.randint(0, 3))],
+            "pos_marks": dup([mark() for _ in range(r.randint(0, 3))]),
             "mmap": {k: mm() for k in mkeys},
-            "mpos_marks": [[r.choice(FILES), "mac", mark()] for _ in range(r.randint(0, 2))]}
+            "mpos_marks": dup([[r.choice(FILES), "mac", mark()] for _ in range(r.randint(0, 2))])}
 
 
 def gen_f(r: random.Random, m: dict) -> dict:
@@ -125,6 +129,30 @@ def impl_case(m: dict, f: dict) -> dict:
             raise
         out = {"ok": False, "err": type(e).__name__, "msg": str(e)[:200]}
     return out
+
+
+def compile_rewrite(text: str, seed: str) -> dict:
+    """rewrite_offsets applied to the source map object the real compiler built (not to a reloaded copy)"""
+    from core import PERF
+    from explorerscript.ssb_converting.ssb_compiler import ExplorerScriptSsbCompiler
+
+    def view(sm) -> dict:
+        return {"map": {int(k): [v.line, v.column] for k, v in sm._mappings.items()},
+                "mmap": {int(k): [v.relpath_included_file, v.macro_name, v.line, v.column,
+                                  list(v.called_in) if v.called_in is not None else None, v.return_addr, dict(v.parameter_mapping)]
+                         for k, v in sm._mappings_macros.items()}}
+    try:
+        c = ExplorerScriptSsbCompiler(PERF)
+        c.compile(text, "/nonexistent/verif_main.exps")
+        sm = c.source_map
+        before = view(sm)
+        f = gen_f(random.Random(seed), {"map": before["map"], "mmap": before["mmap"]})
+        sm.rewrite_offsets({int(k): v for k, v in f.items()})
+        return {"ok": True, "before": before, "mapping": f, "after": view(sm)}
+    except BaseException as e:  # noqa
+        if isinstance(e, (KeyboardInterrupt, SystemExit)):
+            raise
+        return {"ok": False, "err": type(e).__name__, "msg": str(e)[:200]}
 
 
 def otext(x) -> list:
@@ -207,6 +235,7 @@ def main() -> None:
     for i in range(60 if q else 400):
         r = random.Random(f"C14-macro-{run.seed}-{i}")
         g = MacroGen(r, Cfg(max_depth=2, max_block=2, max_routines=2, loops=r.random() < 0.5, terminator_prob=0.6))
+        g.posmark_boost = True
         mtexts.append(print_prog(g.macro_program(1)["flat"]))
     for i, c in enumerate(run_impl([("compile", t) for t in mtexts])):
         if c["ok"] and c["sm"]:
@@ -218,6 +247,22 @@ def main() -> None:
             run.count("compile-time maps", 1)
             if len(m["mmap"]) > 1:
                 run.count("compile-time maps with several macro entries", 1)
+    # rewriting the very object the compiler built (entries may share structure there)
+    crs = run_impl([("checks.c14:compile_rewrite", t, f"C14-cr-{run.seed}-{i}") for i, t in enumerate(mtexts)])
+    for t, o in zip(mtexts, crs):
+        if not o.get("ok"):
+            continue
+        run.case(["compile-rewrite", t], nontrivial=bool(o["before"]["mmap"]))
+        conv = lambda d: {int(k): v for k, v in d.items()}  # noqa: E731
+        m0 = {"map": conv(o["before"]["map"]), "mmap": conv(o["before"]["mmap"])}
+        f0 = conv(o["mapping"])
+        exp = expected_rewrite(m0, f0)
+        got = {"map": conv(o["after"]["map"]), "mmap": conv(o["after"]["mmap"])}
+        good = got["map"] == exp["map"] and got["mmap"] == exp["mmap"]
+        run.count("rewrite of the compiler's own map:" + ("ok" if good else "FAIL"))
+        if not good:
+            run.fail("rewrite-compiler-map", "rewrite_offsets on the source map object built by the compiler: entries are not moved as "
+                     "the property states", {"source": t, "mapping": f0, "expected": exp, "observed": got})
     res = run_impl([("checks.c14:impl_case", m, f) for m, f in cases])
     ser = run_driver([[A("sm_ser"), sm_sexp(m)] for m, _ in cases])
     rew = run_driver([[A("sm_rewrite"), [[int(a), int(b)] for a, b in f.items()], sm_sexp(m)] for m, f in cases])
